@@ -130,9 +130,10 @@ class _SII:
         return None
 
 
-def _images():
+def _images(extra=0):
     """SII images: identity words, then categories (type, bytes) from word
-    0x40 up to the end marker; deterministic, of every alignment"""
+    0x40 up to the end marker; deterministic, of every alignment (`extra`
+    more random ones in the thorough tier)"""
     import struct
     seed = [12345]
 
@@ -141,7 +142,7 @@ def _images():
         return (seed[0] >> 8) % n
     lists = [[], [(10, 6)], [(41, 8), (50, 2), (30, 0), (60, 14)],
              [(0, 4), (1, 10)], [(5, 2), (0xfffe, 6), (7, 12), (9, 2)]]
-    for _ in range(6):
+    for _ in range(6 + extra):
         k = 1 + rnd(5)
         types = []
         while len(types) < k:
@@ -174,7 +175,7 @@ def sii(chk, repo):
     chk.analysed(T + ".read_eeprom", T + "._eeprom_read_one")
     bad = []
     rows = 0
-    images = _images()
+    images = _images(40 if chk.tier == "thorough" else 0)
     # (interface width, busy polls per command, busy polls at the start,
     #  history before the read that is compared: None, "reread" - a
     #  complete read of another image first, or the number of the register
